@@ -167,6 +167,8 @@ func (v *Verifier) VerifyFunction(fn *ssa.Function, fc *FuncContract) (root *Roo
 		c.used++
 	}
 	nPre := len(root.assumes)
+	fx.initGhost(st)
+	fx.runGhost("entry", st, fx.entryEnv(st))
 	rets := fx.runBody(st, True, args)
 	// vacuity: hypotheses at entry must be satisfiable
 	vo := &Obligation{Name: short + ":vacuity", Func: short, Kind: "vacuity", Path: True, Cond: False, NAssume: nPre, Root: root,
@@ -265,7 +267,7 @@ func (fx *FnCtx) contractCallWithNames(st *State, pc *Term, fc *FuncContract, na
 	preEnv.st = preSt
 	fx.havocFrame(st, pc, items, "call_"+fc.Name)
 	nn := Fresh("nalloc_"+fc.Name, tc.IdxSort())
-	fx.assume(tc.IdxLe(st.NAlloc, nn))
+	fx.assume(And(tc.IdxLe(st.NAlloc, nn), tc.IdxLe(nn, tc.IdxNum(1<<61))))
 	st.NAlloc = nn
 	for _, r := range fx.root.pendingRefs {
 		fx.assume(tc.IdxLt(r, nn))
